@@ -83,6 +83,14 @@ def gen_members(rng, nmax=60):
             m["text_pgs"] = rng.choice([0, 0, 3])
             m["word2"] = rng.choice([0, 0, 1, 0x1000, rng.getrandbits(32)])
             m["fixup_pgs"] = rng.choice([0, 0, 1])
+        if kind in ("file", "std", "dir") and rng.random() < 0.12:
+            # pax extended header records in front of the member; a size record repeats the member's size
+            recs = [("mtime", f"{rng.randrange(1 << 31)}.{rng.randrange(10 ** 6)}"), ("comment", "c" * rng.randrange(0, 300)), ("uid", str(rng.randrange(1 << 22)))]
+            recs = rng.sample(recs, rng.randrange(0, 3))
+            if kind != "dir" and rng.random() < 0.7:
+                recs.insert(rng.randrange(len(recs) + 1), ("size", None))
+            m["pax"] = recs or [("comment", "x")]
+            m["visor_pax"] = rng.random() < 0.3
         if kind in ("file", "std", "empty") and not name.endswith("/"):
             # regular files may carry the old-style NUL type flag or the 'contiguous file' flag
             m["typeflag"] = rng.choice([b"0", b"0", b"0", b"\0", b"7"])
@@ -246,6 +254,8 @@ def run(case: dict, ctx) -> dict:
     kinds = [m["kind"] for m in members]
     cnt["gzip_cases"] = int(gz)
     cnt["longname_members"] = sum(1 for m in members if m.get("longname"))
+    cnt["members_with_pax_records"] = sum(1 for m in members if m.get("pax"))
+    cnt["members_with_pax_size_record"] = sum(1 for m in members if any(k_ == "size" for k_, _ in m.get("pax") or []))
     cnt["inline_std_members"] = kinds.count("std")
     cnt["far_offset_members"] = sum(1 for o_ in offs.values() if o_ >= (1 << 31))
     cnt["shared_data_members"] = sum(1 for m in members if m.get("share") is not None)
